@@ -284,7 +284,8 @@ def run(prop, rep, seed, scale=1):
 def find_failing(prop, tool, seed=0):
     """used when a proof obligation fails and the solver's own counterexample does not replay: look for a concrete file of
     that decoder on which the real code contradicts the executable specification (a witness for the report, never a verdict)"""
-    cases = [c for c in gen(seed, 2) if c[0] == tool and c[4] in FAMILIES[prop]]
+    fams = FAMILIES[prop] if prop == "C19" else ("raw", "packed", "options")
+    cases = [c for c in gen(seed, 2) if c[0] == tool and c[4] in fams]
     if not cases:
         return None
     bad, _ = evaluate(prop, cases)
